@@ -50,8 +50,8 @@ func VerifC02_varint() {
 	short := pre < mask // one-byte form
 	// continuation bytes p[1..]: value, position of the first byte without the continuation bit
 	var acc uint64
-	allCont := true  // all of p[1:] have the high bit
-	term := ln       // index of the terminating byte (ln = none)
+	allCont := true // all of p[1:] have the high bit
+	term := ln      // index of the terminating byte (ln = none)
 	for k := ln - 1; k >= 1; k-- {
 		isTerm := p[k]&128 == 0
 		term = vfIteInt(isTerm, k, term)
@@ -416,7 +416,9 @@ func (r *c02run) blockBoth(p []byte) bool {
 
 // c02allowed restricts index-bearing byte patterns to boundary indices (every static-table entry is a separate
 // path; the full index range is covered by the first byte of the 1- and 2-byte runs):
-//   1xxxxxxx index in {0,1,61,62,63,127}; 01xxxxxx index in {0,1,62,63}; 001xxxxx any; 000?xxxx index in {0,1,15}
+//
+//	1xxxxxxx index in {0,1,61,62,63,127}; 01xxxxxx index in {0,1,62,63}; 001xxxxx any; 000?xxxx index in {0,1,15}
+//
 // (61 = last static entry, 62/63 = the two preloaded dynamic entries, 127/63/15 = prefix mask: multi-byte integer)
 func c02allowed(b byte) bool {
 	i7, i6, i4 := b&0x7f, b&0x3f, b&0x0f
